@@ -33,28 +33,102 @@ def rename_rule(ctx, prog, rid):
     """PresentationPart.rename_slide_parts names the part of the i-th relationship id slide<i+1> (shared by C16 R16.5 and C06 R6.3)."""
     pp = prog.cls("pptx.parts.presentation", "PresentationPart")
     rn = pp.methods.get("rename_slide_parts")
-    good = False
-    for n in ast.walk(rn.node) if rn else []:
-        if isinstance(n, ast.For) and isinstance(n.iter, ast.Call) and dotted(n.iter.func) == "enumerate" \
-                and dotted(n.iter.args[0]) == rn.node.args.args[1].arg and len(n.iter.args) == 1 and not n.iter.keywords:
-            iv, rv = [e.id for e in n.target.elts]
-            name_ok = part_ok = False
-            for m in ast.walk(n):
-                if isinstance(m, ast.BinOp) and isinstance(m.op, ast.Mod) and isinstance(m.left, ast.Constant) \
-                        and m.left.value == "/ppt/slides/slide%d.xml":
-                    from sa.poly import Poly, of_expr
+    if rn is None:
+        raise AnalysisError("anchor vanished: PresentationPart.rename_slide_parts")
+    from sa import paths as P_
+    from sa.inline import expand as _expand
+    from sa.poly import Poly, of_expr
+    from sa.strtpl import holes, shape, template_of
 
-                    arg = m.right.elts[0] if isinstance(m.right, ast.Tuple) else m.right
-                    name_ok = of_expr(arg) == Poly.sym(iv) + Poly.const(1)
-                if isinstance(m, ast.Call) and dotted(m.func) == "self.related_part" and dotted(m.args[0]) == rv:
-                    part_ok = True
-            cond = any(isinstance(x, (ast.If, ast.Continue, ast.Break)) for x in ast.walk(n))
-            good = name_ok and part_ok and not cond
+    rx = _expand(prog, rn, local_only=True)
+    val = P_.value_aliases(rx)
+    rparam = rn.node.args.args[1].arg
+    good, recognised = False, False
+    for n in ast.walk(rx):
+        if not isinstance(n, ast.For):
+            continue
+        # position of the element: `enumerate(rIds[, start])` gives idx = i + start; `range(len(rIds))` gives idx = i
+        it, env, rv = n.iter, None, None
+        if isinstance(it, ast.Call) and dotted(it.func) == "enumerate" and it.args and dotted(it.args[0]) == rparam \
+                and isinstance(n.target, ast.Tuple) and len(n.target.elts) == 2 and all(isinstance(e, ast.Name) for e in n.target.elts):
+            start = it.args[1] if len(it.args) > 1 else next((k.value for k in it.keywords if k.arg == "start"), ast.Constant(value=0))
+            sv = prog.const(start, rn.module)
+            if isinstance(sv, int):
+                env = {n.target.elts[0].id: Poly.sym("i") + Poly.const(sv)}
+                rv = n.target.elts[1].id
+        if env is None:
+            continue
+        recognised = True
+        name_ok = part_ok = False
+        for m in ast.walk(n):
+            if isinstance(m, ast.Assign) and isinstance(m.targets[0], ast.Attribute) and m.targets[0].attr == "partname":
+                who = P_.full(m.targets[0].value, val)
+                part_ok = who == "self.related_part(%s)" % rv
+                v = m.value
+                if isinstance(v, ast.Name) and v.id in val:
+                    v = val[v.id]
+                if isinstance(v, ast.Call) and dotted(v.func) == "PackURI" and v.args:
+                    t = template_of(v.args[0], lambda nm: val.get(nm.id), lambda e: prog.const(e, rn.module))
+                    if t is not None and shape(t) == "/ppt/slides/slide{}.xml":
+                        name_ok = of_expr(holes(t)[0].expr, env) == Poly.sym("i") + Poly.const(1)
+        cond = any(isinstance(x, (ast.If, ast.Continue, ast.Break, ast.IfExp)) for x in ast.walk(n))
+        good = name_ok and part_ok and not cond
+    if not recognised:
+        ctx.error("PresentationPart.rename_slide_parts", "the loop over the relationship ids with their positions is not recognised")
+        return
     if good:
         ctx.ok(rid, "PresentationPart.rename_slide_parts", sample={"name": "/ppt/slides/slide<i+1>.xml for the i-th rId, unconditionally"})
     else:
         ctx.violation(rid, "PresentationPart.rename_slide_parts", "slide parts are not named slide<i+1> for the i-th relationship id",
                       file=pp.file, line=rn.line if rn else pp.line)
+
+
+def slides_rename_facts(prog):
+    """How Presentation.slides renames before handing the slides out: {"arg_ok": the rename receives the rId of every p:sldId in
+    document order, "same_list": Slides(...) is built over the same id list, "before": on every path the rename precedes it}."""
+    from sa import paths as P_
+    from sa.desugar import desugar as _ds
+
+    prs = prog.cls("pptx.presentation", "Presentation")
+    sl = prs.methods.get("slides") if prs else None
+    if sl is None:
+        raise AnalysisError("anchor vanished: Presentation.slides")
+    from sa.inline import expand as _expand
+
+    sx = _expand(prog, sl, local_only=True)
+    val = P_.value_aliases(sx)
+    out = {"arg_ok": False, "same_list": False, "before": False, "func": sl, "recognised": False}
+    ren = [c for c in ast.walk(sx) if isinstance(c, ast.Call) and isinstance(c.func, ast.Attribute) and c.func.attr == "rename_slide_parts" and c.args]
+    ctor = [c for c in ast.walk(sx) if isinstance(c, ast.Call) and dotted(c.func) == "Slides" and c.args]
+    if len(ren) > 1 or len(ctor) != 1:
+        return out
+    out["recognised"] = True
+    if not ren:
+        return out  # the slides are handed out and nothing on the way renames the parts
+    a = ren[0].args[0]
+    if isinstance(a, ast.Name) and a.id in val:
+        a = val[a.id]
+    lst = None
+    if isinstance(a, (ast.ListComp, ast.GeneratorExp)) and len(a.generators) == 1 and not a.generators[0].ifs \
+            and isinstance(a.generators[0].target, ast.Name):
+        e = a.elt
+        if isinstance(e, ast.Attribute) and e.attr == "rId":
+            e = e.value
+            while isinstance(e, ast.Call) and dotted(e.func) == "cast" and len(e.args) == 2:
+                e = e.args[1]
+            if isinstance(e, ast.Name) and e.id == a.generators[0].target.id:
+                lst = P_.full(a.generators[0].iter, val)
+    if lst is not None and lst.endswith(".sldId_lst"):
+        lst = lst[:-len(".sldId_lst")]
+    out["arg_ok"] = lst is not None and lst.endswith("get_or_add_sldIdLst()")
+    out["same_list"] = lst is not None and P_.full(ctor[0].args[0], val) == lst
+    before = True
+    for pth in P_.enum_paths(sx.body):
+        i, j = pth.index_of(ren[0]), pth.index_of(ctor[0])
+        if j is not None and (i is None or i >= j):
+            before = False
+    out["before"] = before
+    return out
 
 
 def core_properties_default_rule(ctx, prog, rid):
@@ -610,24 +684,14 @@ def run(ctx):
     # -- R16.5 -------------------------------------------------------------------------------------------
     ctx.rule("R16.5", "slide parts are renamed slide1..n in presentation order")
     rename_rule(ctx, prog, "R16.5")
-    prs = prog.cls("pptx.presentation", "Presentation")
-    sl = prs.methods.get("slides")
-    good = False
-    for c in ast.walk(sl.node) if sl else []:
-        if isinstance(c, ast.Call) and (dotted(c.func) or "").endswith("rename_slide_parts") and c.args:
-            a = c.args[0]
-            if isinstance(a, (ast.ListComp, ast.GeneratorExp)) and not a.generators[0].ifs and dotted(a.generators[0].iter) in ("sldIdLst", "sldIdLst.sldId_lst"):
-                e = a.elt
-                while isinstance(e, ast.Call) and dotted(e.func) == "cast":
-                    e = e.args[1]
-                good = isinstance(e, ast.Attribute) and e.attr == "rId"
-                if isinstance(a.elt, ast.Attribute) and isinstance(a.elt.value, ast.Call):
-                    good = a.elt.attr == "rId"
-    if good:
+    sf = slides_rename_facts(prog)
+    if not sf["recognised"]:
+        ctx.error("Presentation.slides", "the rename_slide_parts / Slides(...) pair is not recognised")
+    elif sf["arg_ok"] and sf["before"]:
         ctx.ok("R16.5", "Presentation.slides", sample={"order": "rIds of every p:sldId in document order"})
     else:
         ctx.violation("R16.5", "Presentation.slides", "rename_slide_parts is not given the rIds of all p:sldId in document order",
-                      file=prs.file, line=sl.line if sl else prs.line)
+                      file=sf["func"].file, line=sf["func"].line)
 
     # -- R16.6 -------------------------------------------------------------------------------------------
     ctx.rule("R16.6", "'cannot happen' exits (bare Exception) on the open / first-access paths are unreachable")
@@ -643,10 +707,11 @@ def run(ctx):
         nimp += 1
         key = "%s:raise Exception" % g.qualname
         # recognised justification: the raise follows a candidate scan that cannot be exhausted (pigeonhole, decided on the loop bounds)
-        loops = [n for n in ast.walk(g.node) if isinstance(n, ast.For) and any(
+        gd = _desugar(g.node)
+        loops = [n for n in ast.walk(gd) if isinstance(n, ast.For) and any(
             isinstance(c, ast.Compare) and isinstance(c.ops[0], ast.NotIn) for c in ast.walk(n))]
         prob = scan_exhaustion_problem(g.node)
-        last_is_raise = g.node.body and g.node.body[-1] in bare
+        last_is_raise = bool(gd.body) and isinstance(gd.body[-1], ast.Raise) and isinstance(gd.body[-1].exc, ast.Call) and dotted(gd.body[-1].exc.func) == "Exception"
         if loops and last_is_raise and prob is None:
             ctx.ok("R16.6", key, sample={"function": g.fq, "unreachable_because": "the scan before it tries at least |population|+1 distinct candidates"})
         elif prob is not None:
